@@ -344,8 +344,9 @@ fn gen_mapping(rng: &mut Rng, depth: usize) -> MapSpec {
     }
 }
 
-const COLS: [&str; 12] = [
+const COLS: [&str; 15] = [
     "origin", "destination", "distance", "time", "energy", "cost", "name", "path", "Zeta", "alpha col", "\u{e9}t\u{e9}", "err",
+    "km, total", "the \"best\" one", "two\nlines",
 ];
 
 fn gen_format(rng: &mut Rng, allow_array_json: bool) -> FmtSpec {
@@ -390,7 +391,7 @@ fn canon(v: &Value) -> Value {
         Value::Object(o) => {
             let mut m = Map::new();
             for (k, x) in o {
-                if k == "error" || k == "csv_error" {
+                if k == "error" || k.starts_with("csv_error") {
                     m.insert(k.clone(), canon_csv_err(x));
                 } else {
                     m.insert(k.clone(), x.clone());
@@ -426,23 +427,193 @@ fn approx_eq(a: &Value, b: &Value) -> bool {
     }
 }
 
-/// field boundaries as an RFC 4180 reader sees them (every `"` toggles quoting)
-fn split_top(row: &str) -> Vec<String> {
-    let mut out = vec![];
-    let mut cur = String::new();
-    let mut q = false;
-    for c in row.chars() {
-        if c == '"' {
-            q = !q;
-            cur.push(c);
-        } else if c == ',' && !q {
-            out.push(std::mem::take(&mut cur));
+/// RFC 4180 reader written for the oracle: the records of a text, each a list of unescaped fields.
+/// A field in double quotes may hold commas, line breaks and `""` for a quote; a record ends at a line break
+/// outside quotes.  Err: a quote that never closes, or text between a closing quote and the next comma.
+fn csv_read(text: &str) -> Result<Vec<Vec<String>>, String> {
+    let cs: Vec<char> = text.chars().collect();
+    let mut records = vec![];
+    let mut fields: Vec<String> = vec![];
+    let mut i = 0;
+    loop {
+        // one field
+        let mut field = String::new();
+        if i < cs.len() && cs[i] == '"' {
+            i += 1;
+            loop {
+                if i >= cs.len() {
+                    return Err("a quoted field never closes".into());
+                }
+                if cs[i] == '"' {
+                    if i + 1 < cs.len() && cs[i + 1] == '"' {
+                        field.push('"');
+                        i += 2;
+                    } else {
+                        i += 1;
+                        break;
+                    }
+                } else {
+                    field.push(cs[i]);
+                    i += 1;
+                }
+            }
+            if i < cs.len() && cs[i] != ',' && cs[i] != '\n' {
+                return Err(format!("text after a closing quote at {}", i));
+            }
         } else {
-            cur.push(c);
+            while i < cs.len() && cs[i] != ',' && cs[i] != '\n' {
+                field.push(cs[i]);
+                i += 1;
+            }
+        }
+        fields.push(field);
+        if i >= cs.len() {
+            records.push(std::mem::take(&mut fields));
+            return Ok(records);
+        }
+        if cs[i] == '\n' {
+            records.push(std::mem::take(&mut fields));
+            i += 1;
+            if i >= cs.len() {
+                return Ok(records);
+            }
+        } else {
+            i += 1; // the comma
         }
     }
-    out.push(cur);
-    out
+}
+
+/// the raw records of a CSV text, each with its terminating line break, and the unterminated rest
+fn csv_raw_records(text: &str) -> (Vec<&str>, &str) {
+    let mut out = vec![];
+    let mut q = false;
+    let mut start = 0;
+    for (i, c) in text.char_indices() {
+        if c == '"' {
+            q = !q;
+        } else if c == '\n' && !q {
+            out.push(&text[start..=i]);
+            start = i + 1;
+        }
+    }
+    (out, &text[start..])
+}
+
+/// what a reader should get for `resp`, column by column in the header's order: a string's text, any other
+/// value's JSON text, nothing when the mapping fails
+fn reference_fields(cols: &[(String, MapSpec)], header: &[String], resp: &Value) -> Vec<String> {
+    header
+        .iter()
+        .map(|h| match cols.iter().find(|(k, _)| k == h).and_then(|(_, spec)| spec.reference(resp)) {
+            Some(Value::String(s)) => s,
+            Some(v) => serde_json::to_string(&v).unwrap_or_default(),
+            None => String::new(),
+        })
+        .collect()
+}
+
+/// the column names of a header line, read back
+fn header_names(cols: &[(String, MapSpec)], header_line: &str) -> Option<Vec<String>> {
+    if cols.is_empty() {
+        return Some(vec![]);
+    }
+    let recs = csv_read(header_line.strip_suffix('\n')?).ok()?;
+    if recs.len() != 1 {
+        return None;
+    }
+    let names = recs.into_iter().next()?;
+    let mut a = names.clone();
+    a.sort();
+    let mut b: Vec<String> = cols.iter().map(|(k, _)| k.clone()).collect();
+    b.sort();
+    if a == b {
+        Some(names)
+    } else {
+        None
+    }
+}
+
+/// the records of a CSV file (raw text, without their line break) against the responses they were written
+/// for, as multisets: every record reads back into as many fields as the header has, holding the cells' values
+fn check_csv_records(ctx: &mut Ctx, idx: usize, cols: &[(String, MapSpec)], names: &[String], records: &[&str], resps: &[&Value]) {
+    if names.is_empty() {
+        return;
+    }
+    // a failure is filed under the defect it points at: an array/object cell, a string cell that needs
+    // escaping, or neither
+    let nonscalar = resps.iter().any(|resp| cols.iter().any(|(_, m)| matches!(m.reference(resp), Some(Value::Array(_)) | Some(Value::Object(_)))));
+    let tricky_string = resps.iter().any(|resp| {
+        cols.iter().any(|(_, m)| matches!(m.reference(resp), Some(Value::String(s)) if s.chars().any(|c| c == '"' || c == ',' || c == '\\' || (c as u32) < 32)))
+    });
+    let key_for = |generic: &'static str| -> &'static str {
+        if nonscalar {
+            "sink/csv-nonscalar-cell-unquoted"
+        } else if tricky_string {
+            "sink/csv-string-cell-json-escaped"
+        } else {
+            generic
+        }
+    };
+    let mut got: Vec<Vec<String>> = vec![];
+    for r in records {
+        match csv_read(r) {
+            Ok(mut recs) if recs.len() == 1 => got.push(recs.remove(0)),
+            Ok(recs) => {
+                ctx.fail(idx, key_for("sink/csv-record-unreadable"), format!("a reader gets {} records from {:?}", recs.len(), clip(r)));
+                return;
+            }
+            Err(e) => {
+                ctx.fail(idx, key_for("sink/csv-record-unreadable"), format!("{}: {:?}", e, clip(r)));
+                return;
+            }
+        }
+    }
+    if let Some(bad) = got.iter().find(|f| f.len() != names.len()) {
+        ctx.fail(idx, key_for("sink/csv-column-count"), format!("header has {} columns, a reader gets {} fields: {:?}", names.len(), bad.len(), clip(&bad.join("|"))));
+        return;
+    }
+    let mut want: Vec<Vec<String>> = resps.iter().map(|r| reference_fields(cols, names, r)).collect();
+    got.sort();
+    want.sort();
+    if got != want {
+        let k = got.iter().zip(&want).position(|(a, b)| a != b).unwrap_or(0);
+        let (g, w) = (got.get(k).map(|f| f.join("|")).unwrap_or_default(), want.get(k).map(|f| f.join("|")).unwrap_or_default());
+        ctx.fail(idx, key_for("sink/csv-row-mismatch"), format!("a reader gets fields {:?}, the mapping in header order {:?} says {:?}", clip(&g), names, clip(&w)));
+    }
+}
+
+/// canonical text of a file written by several threads: what was there after open, then the records sorted
+fn canonical_file(fmt: &FmtSpec, opened: &str, rest: &str) -> String {
+    match fmt {
+        FmtSpec::Csv { .. } => {
+            let (mut recs, left) = csv_raw_records(rest);
+            recs.sort();
+            format!("{}{}{}", opened, recs.concat(), left)
+        }
+        _ => {
+            let mut ls: Vec<&str> = rest.split('\n').collect();
+            ls.sort();
+            format!("{}{}", opened, ls.join("\n"))
+        }
+    }
+}
+
+/// the records of the text appended to a file, without their line breaks, and whether the text ends with one
+fn appended_records<'a>(fmt: &FmtSpec, rest: &'a str) -> (Vec<&'a str>, bool) {
+    match fmt {
+        FmtSpec::Csv { .. } => {
+            let (recs, left) = csv_raw_records(rest);
+            (recs.into_iter().map(|r| &r[..r.len() - 1]).collect(), left.is_empty())
+        }
+        _ => {
+            if rest.is_empty() {
+                (vec![], true)
+            } else {
+                let ok = rest.ends_with('\n');
+                (rest.strip_suffix('\n').unwrap_or(rest).split('\n').collect(), ok)
+            }
+        }
+    }
 }
 
 /// every top-level key/value of `before` is still in `after`, unchanged; Some((key, kind)) otherwise
@@ -490,32 +661,6 @@ fn clip(s: &str) -> String {
     }
 }
 
-/// the row a reader expects for `resp` given the header's column order
-fn reference_row(cols: &[(String, MapSpec)], header: &[String], resp: &Value) -> Option<String> {
-    let mut cells = vec![];
-    for h in header {
-        let spec = &cols.iter().find(|(k, _)| k == h)?.1;
-        cells.push(match spec.reference(resp) {
-            Some(v) => serde_json::to_string(&v).ok()?,
-            None => String::new(),
-        });
-    }
-    Some(cells.join(","))
-}
-
-/// does a reader get as many fields as the header has? classify the cause otherwise
-fn check_columns(ctx: &mut Ctx, idx: usize, cols: &[(String, MapSpec)], header: &[String], resp: &Value, row: &str) {
-    if header.is_empty() {
-        return;
-    }
-    let got = split_top(row).len();
-    if got != header.len() {
-        let nonscalar = cols.iter().any(|(_, m)| matches!(m.reference(resp), Some(Value::Array(_)) | Some(Value::Object(_))));
-        let key = if nonscalar { "sink/csv-nonscalar-cell-unquoted" } else { "sink/csv-string-cell-json-escaped" };
-        ctx.fail(idx, key, format!("header has {} columns, a reader splits the row into {}: {}", header.len(), got, clip(row)));
-    }
-}
-
 // ---------------------------------------------------------------------------------------------------
 // case kind F: one format_response
 
@@ -555,23 +700,21 @@ fn case_f(ctx: &mut Ctx, idx: usize, fmt: &FmtSpec, resp: &Value) {
             }
             FmtSpec::Json(false) => {}
             FmtSpec::Csv { cols, .. } => {
-                if row.contains('\n') {
-                    ctx.fail(idx, "sink/record-not-one-line", clip(row));
-                }
                 let h = header.clone().unwrap_or_default();
-                let names: Vec<String> = if cols.is_empty() { vec![] } else { h.trim_end_matches('\n').split(',').map(|s| s.to_string()).collect() };
-                let mut sorted_names = names.clone();
-                sorted_names.sort();
-                let mut want: Vec<String> = cols.iter().map(|(k, _)| k.clone()).collect();
-                want.sort();
-                if sorted_names != want || !h.ends_with('\n') {
-                    ctx.fail(idx, "sink/csv-header", format!("header {:?} is not the mapping's columns {:?}", h, want));
-                } else {
-                    match reference_row(cols, &names, resp) {
-                        Some(r) if &r == row => {}
-                        other => ctx.fail(idx, "sink/csv-row-mismatch", format!("row {} expected {:?} (header order {:?})", clip(row), other.map(|s| clip(&s)), names)),
+                match header_names(cols, &h) {
+                    None => ctx.fail(idx, "sink/csv-header", format!("header {:?} does not read back into the mapping's columns", h)),
+                    Some(names) => {
+                        let terminated_row = format!("{}\n", row);
+                        let (raw, left) = csv_raw_records(&terminated_row);
+                        if (raw.len() != 1 || !left.is_empty()) && !cols.is_empty() {
+                            // let the record check say what a reader makes of it
+                            ctx.count("F/csv-row-not-one-record");
+                        }
+                        check_csv_records(ctx, idx, cols, &names, &[row.as_str()], &[resp]);
                     }
-                    check_columns(ctx, idx, cols, &names, resp, row);
+                }
+                if row.contains('\n') {
+                    ctx.count("F/csv-row-with-line-break");
                 }
                 let failing = cols.iter().filter(|(_, m)| m.reference(resp).is_none()).count();
                 ctx.count(if failing == 0 { "F/csv-all-cells" } else if failing == cols.len() { "F/csv-no-cell" } else { "F/csv-some-cells-fail" });
@@ -729,10 +872,7 @@ fn case_s(ctx: &mut Ctx, idx: usize, c: &SinkCase) -> Option<String> {
     let canonical = if !prefix_ok {
         file.clone()
     } else if t > 1 {
-        let rest = &file[opened.len()..];
-        let mut ls: Vec<&str> = rest.split('\n').collect();
-        ls.sort();
-        format!("{}{}", opened, ls.join("\n"))
+        canonical_file(&c.fmt, &opened, &file[opened.len()..])
     } else {
         file.clone()
     };
@@ -771,11 +911,11 @@ fn case_s(ctx: &mut Ctx, idx: usize, c: &SinkCase) -> Option<String> {
         let all: Vec<&Value> = c.workers.iter().flatten().collect();
         let rest = &file[opened.len()..];
         let mut ok_shape = true;
-        if !rest.is_empty() && !rest.ends_with('\n') {
-            ctx.fail(idx, "sink/record-truncated", format!("file does not end with a newline: …{:?}", clip(&rest[rest.len().saturating_sub(80)..])));
+        let (mut lines, terminated) = appended_records(&c.fmt, rest);
+        if !terminated {
+            ctx.fail(idx, "sink/record-truncated", format!("the file does not end with a complete record: {:?}", clip(rest)));
             ok_shape = false;
         }
-        let mut lines: Vec<&str> = if rest.is_empty() { vec![] } else { rest[..rest.len() - 1].split('\n').collect() };
         if c.close {
             // close() ends the file with one empty line
             if lines.last() == Some(&"") {
@@ -838,34 +978,18 @@ fn case_s(ctx: &mut Ctx, idx: usize, c: &SinkCase) -> Option<String> {
                     if created && opened != header_line {
                         ctx.fail(idx, "sink/csv-header", format!("a new file starts with {:?}, not with the header {:?}", clip(&opened), header_line));
                     }
-                    let names: Vec<String> = if cols.is_empty() { vec![] } else { header_line.trim_end_matches('\n').split(',').map(|s| s.to_string()).collect() };
-                    let mut sorted_names = names.clone();
-                    sorted_names.sort();
-                    let mut want_names: Vec<String> = cols.iter().map(|(k, _)| k.clone()).collect();
-                    want_names.sort();
-                    if sorted_names != want_names {
-                        ctx.fail(idx, "sink/csv-header", format!("header {:?} is not the mapping's columns", header_line));
-                    } else {
-                        // exactly one header in a file this run created (or that a previous run of the same format created)
-                        let h = header_line.trim_end_matches('\n');
-                        if !cols.is_empty() && file.starts_with(&header_line) {
-                            let count = file.split('\n').filter(|l| *l == h).count();
-                            if count != 1 {
-                                ctx.fail(idx, "sink/csv-header-repeated", format!("{} header lines in the file", count));
+                    match header_names(cols, &header_line) {
+                        None => ctx.fail(idx, "sink/csv-header", format!("header {:?} does not read back into the mapping's columns", header_line)),
+                        Some(names) => {
+                            // exactly one header in a file this run created (or that a previous run of the same format created)
+                            if !cols.is_empty() && file.starts_with(&header_line) {
+                                let (all_records, _) = csv_raw_records(&file);
+                                let count = all_records.iter().filter(|l| **l == header_line).count();
+                                if count != 1 {
+                                    ctx.fail(idx, "sink/csv-header-repeated", format!("{} header records in the file", count));
+                                }
                             }
-                        }
-                        let mut want: Vec<String> = all.iter().map(|r| reference_row(cols, &names, r).unwrap_or_default()).collect();
-                        let mut got: Vec<String> = lines.iter().map(|s| s.to_string()).collect();
-                        want.sort();
-                        got.sort();
-                        if want != got {
-                            let k = want.iter().zip(&got).position(|(a, b)| a != b).unwrap_or(0);
-                            ctx.fail(idx, "sink/csv-row-mismatch", format!("rows differ from the mapping applied in header order, e.g. {:?} vs {:?}", clip(&got[k]), clip(&want[k])));
-                        } else {
-                            for r in &all {
-                                let row = reference_row(cols, &names, r).unwrap_or_default();
-                                check_columns(ctx, idx, cols, &names, r, &row);
-                            }
+                            check_csv_records(ctx, idx, cols, &names, &lines, &all);
                         }
                     }
                 }
@@ -1063,7 +1187,7 @@ fn case_a(ctx: &mut Ctx, idx: usize, app: &CompassApp, c: &AppCase) -> Option<St
     };
     let prefix_ok = file.starts_with(&opened);
     let rest: &str = if prefix_ok { &file[opened.len()..] } else { "" };
-    let lines: Vec<&str> = if rest.is_empty() { vec![] } else { rest.strip_suffix('\n').unwrap_or(rest).split('\n').collect() };
+    let (lines, terminated) = appended_records(&c.fmt, rest);
     // the responses of queries that failed input processing come last in what is handed back (both policies)
     let split = returned.len().saturating_sub(n_bad);
     let errors_post: Vec<Value> = returned[split..].to_vec();
@@ -1095,9 +1219,7 @@ fn case_a(ctx: &mut Ctx, idx: usize, app: &CompassApp, c: &AppCase) -> Option<St
     let canonical = if !prefix_ok {
         file.clone()
     } else if c.parallelism > 1 {
-        let mut ls: Vec<&str> = rest.split('\n').collect();
-        ls.sort();
-        format!("{}{}", opened, ls.join("\n"))
+        canonical_file(&c.fmt, &opened, rest)
     } else {
         file.clone()
     };
@@ -1166,8 +1288,8 @@ fn case_a(ctx: &mut Ctx, idx: usize, app: &CompassApp, c: &AppCase) -> Option<St
         if returned.len() != handed_back {
             ctx.fail(idx, "app/response-count", format!("{} responses expected back, {} returned", handed_back, returned.len()));
         }
-        if !rest.is_empty() && !rest.ends_with('\n') {
-            ctx.fail(idx, "sink/record-truncated", "file does not end with a newline".into());
+        if !terminated {
+            ctx.fail(idx, "sink/record-truncated", "the file does not end with a complete record".into());
         }
         let count_ok = lines.len() == expected;
         if !count_ok {
@@ -1220,13 +1342,14 @@ fn case_a(ctx: &mut Ctx, idx: usize, app: &CompassApp, c: &AppCase) -> Option<St
                 }
             }
             FmtSpec::Csv { cols, .. } if !cols.is_empty() && c.persist => {
-                let names: Vec<String> = header.trim_end_matches('\n').split(',').map(|s| s.to_string()).collect();
-                let mut want: Vec<String> = errors_pre.iter().chain(searched_pre.iter()).map(|r| reference_row(cols, &names, r).unwrap_or_default()).collect();
-                let mut got: Vec<String> = lines.iter().map(|s| s.to_string()).collect();
-                want.sort();
-                got.sort();
-                if count_ok && want != got {
-                    ctx.fail(idx, "sink/csv-row-mismatch", format!("rows {:?} expected {:?}", clip(&got.join(";")), clip(&want.join(";"))));
+                match header_names(cols, &header) {
+                    None => ctx.fail(idx, "sink/csv-header", format!("header {:?} does not read back into the mapping's columns", header)),
+                    Some(names) => {
+                        if count_ok {
+                            let all: Vec<&Value> = errors_pre.iter().chain(searched_pre.iter()).collect();
+                            check_csv_records(ctx, idx, cols, &names, &lines, &all);
+                        }
+                    }
                 }
                 if file.split('\n').filter(|l| *l == header.trim_end_matches('\n')).count() != 1 && file.starts_with(&header) {
                     ctx.fail(idx, "sink/csv-header-repeated", "more than one header line".into());
